@@ -33,11 +33,11 @@ func NewActor(seed []byte) Actor {
 
 // NetOpts steers NewNet.
 type NetOpts struct {
-	Actors      int    // default 4
-	Regime      string // "", "v1", "overlap", "v2"  ("" = drawn)
-	MaxHeight   int    // how tall chains may get (sizes the genesis timestamp); default 80
-	AllowLo     int    // range for the allow height when regime is overlap (default 3..14)
-	AllowHi     int
+	Actors       int    // default 4
+	Regime       string // "", "v1", "overlap", "v2"  ("" = drawn)
+	MaxHeight    int    // how tall chains may get (sizes the genesis timestamp); default 80
+	AllowLo      int    // range for the allow height when regime is overlap (default 3..14)
+	AllowHi      int
 	NoFoundation bool
 }
 
